@@ -92,19 +92,25 @@ func runC07(c *Ctx, r *Run) {
 		replay := func(callee *ssa.Function, queue string) (bool, string) {
 			found := false
 			where := ""
-			allInstrs(fin, func(in ssa.Instruction) {
-				call, isCall := in.(*ssa.Call)
-				if !isCall || call.Call.StaticCallee() != callee {
+			// in finalize itself or in a helper of the handler it calls (replay loops extracted into a method)
+			withCallees(c, fin, 2, func(f *ssa.Function) {
+				if f != fin && (f == callee || f == vb || f == vm) {
 					return
 				}
-				// argument comes from ranging over recv.<queue>[...]
-				if dependsOn(call.Call.Args[1], func(v ssa.Value) bool {
-					rg, isR := v.(*ssa.Range)
-					return isR && containsField(paramFields(fin, rg.X), "recv."+queue)
-				}) {
-					found = true
-					where = c.Pos(call.Pos())
-				}
+				allInstrs(f, func(in ssa.Instruction) {
+					call, isCall := in.(*ssa.Call)
+					if !isCall || call.Call.StaticCallee() != callee {
+						return
+					}
+					// argument comes from ranging over recv.<queue>[...]
+					if dependsOn(call.Call.Args[1], func(v ssa.Value) bool {
+						rg, isR := v.(*ssa.Range)
+						return isR && containsField(paramFields(f, rg.X), "recv."+queue)
+					}) {
+						found = true
+						where = c.Pos(call.Pos())
+					}
+				})
 			})
 			return found, where
 		}
